@@ -46,6 +46,7 @@ type Exec struct {
 	assumptions    []Assump
 	obligations    []*Obligation
 	auditNotes     []string
+	execLo, execHi token.Pos // source range of the statements under verification
 	closureDefs    map[*types.Var]*ast.FuncLit
 	autoUnroll     map[ast.Stmt]*LoopContract
 	anteCovers     []*Obligation // vacuity audit: reachability of the antecedents of A ==> B clauses
